@@ -120,11 +120,11 @@ def apply(f, kind, op, ids):
 
 
 OBS = {
-    "xy": ["cost_function_value", "y_model", "x_model", "y_data", "x_data", "y_data_error", "x_data_error", "y_model_error", "x_model_error", "y_total_error", "x_total_error", "total_error", "y_data_cov_mat", "y_model_cov_mat",
+    "xy": ["model", "data", "cost_function_value", "y_model", "x_model", "y_data", "x_data", "y_data_error", "x_data_error", "y_model_error", "x_model_error", "y_total_error", "x_total_error", "total_error", "y_data_cov_mat", "y_model_cov_mat",
            "y_total_cov_mat", "x_total_cov_mat", "total_cov_mat", "ndf", "goodness_of_fit", "chi2_probability", "parameter_values", "has_errors", "did_fit"],
-    "indexed": ["cost_function_value", "model", "data", "data_error", "model_error", "total_error", "data_cov_mat", "model_cov_mat", "total_cov_mat", "ndf", "goodness_of_fit", "chi2_probability", "parameter_values", "has_errors", "did_fit"],
-    "hist": ["cost_function_value", "model", "data", "data_error", "model_error", "total_error", "data_cov_mat", "model_cov_mat", "total_cov_mat", "ndf", "goodness_of_fit", "parameter_values", "has_errors", "did_fit"],
-    "unbinned": ["cost_function_value", "model", "data", "ndf", "parameter_values", "did_fit"],
+    "indexed": ["model", "data", "cost_function_value", "data_error", "model_error", "total_error", "data_cov_mat", "model_cov_mat", "total_cov_mat", "ndf", "goodness_of_fit", "chi2_probability", "parameter_values", "has_errors", "did_fit"],
+    "hist": ["model", "data", "cost_function_value", "data_error", "model_error", "total_error", "data_cov_mat", "model_cov_mat", "total_cov_mat", "ndf", "goodness_of_fit", "parameter_values", "has_errors", "did_fit"],
+    "unbinned": ["model", "data", "cost_function_value", "ndf", "parameter_values", "did_fit"],
 }
 OBS["hist_ga"] = OBS["hist_np"] = OBS["hist"]
 RESULT_OBS = ["parameter_errors", "parameter_cov_mat"]
